@@ -1,4 +1,5 @@
-\* C04 sensitivity demonstration (finding F30, repaired): the model of the code before the repair (PushLastWins = TRUE) must violate ExplicitIdsWin.
+\* C04 thorough (id sources): 1 thread, <= 3 spans, <= 3 frames, no tasks, nesting <= 3; incoming ids in all three kinds; ids of a span node generated / all explicit / drawn by the program from the random source / SpanCtxt::new_root / span_id alone;
+\* every transition replayed.
 SPECIFICATION SSpec
 CONSTANTS
     NThreads = 1
@@ -18,13 +19,14 @@ CONSTANTS
     IncomingKinds <- MC_IncAll
     WithLazy = FALSE
     HasRng = TRUE
-    ExplicitKinds <- MC_ExBoth
-    PushLastWins = TRUE
+    ExplicitKinds <- MC_ExEvery
+    PushLastWins = FALSE
     WithCancel = FALSE
     CancelOwnIds = FALSE
     CtxForms <- MC_Forms
-    Emit = FALSE
+    Emit = TRUE
 VIEW sview
-INVARIANTS ExplicitIdsWin
+INVARIANTS InnermostWins NoTrace StackOK FrameIds AmbientIds OneTrace ParentIsEnclosing EventCarriesInnermost IdsDistinct
+PROPERTIES Revert
 ACTION_CONSTRAINT SEmitReplay
 CHECK_DEADLOCK FALSE
